@@ -28,6 +28,6 @@ def main(chk):
 MANIFEST = {
     'category': 'proof',
     'technique': 'Coq proof (simulation of an executable model of ioDecReader by the specification reader over the delivered bytes, invariants over operation lists) + vm_compute correspondence of the model against the real ioDecReader/bytesDecReader + direct oracle on real Decoders (io vs []byte, truncation at every offset, chunk boundary at every offset)',
-    'text': 'see theorems in coq/theories/Properties/C03.v',
+    'text': 'Theorems C03_refines (io trace == specification trace on the delivered bytes: outputs, tokens, numread, success/failure; all ReaderBufferSize, MaxInitLen, ByteReader or not, all data, all contract-abiding scripts, all protocol-respecting operation lists over all decReaderI operations incl. recording and the json scanners), C03_truncated (reader ends early with EOF or an error => error), C03_truncated_unbuffered_any_script, C03_no_overread (unbuffered: bytes drawn == numread after every operation), C03_total (no out-of-fuel) hold without bounds; the model is tied to reader.go by running both on the same operation lists, data and scripts (unit stream, vm_compute, incl. Read call counts and request sizes) and the API consequence (value, error-ness, NumBytesRead equal to NewDecoderBytes; chunk boundary and truncation at every offset; iotest readers; deadline reader; no over-read) is checked on real Decoders of all five formats.',
     'note': 'Trusted: Coq kernel, the hand-written models of ioDecReader/bytesDecReader and of the scripted reader (correspondence-checked, not verified), Gen/Consts.v translator (maxConsecutiveEmptyReads), Go toolchain. The decoder layers above the reader are covered only by the API oracle.',
 }
